@@ -201,6 +201,16 @@ def body(cfg):
             S.claim("average_reduction_integral_times_extent_is_full_integral", S.eq(part * dims[m], full))
         S.claim("input_untouched", S.eq(img.img, a))
         S.observe("red", red.img)
+        # an image that is NOT anchored at the default origin: the retained axes keep their physical position,
+        # whether the axis is addressed by matrix index or by Cartesian name
+        org = [S.real(f"o{e}", lo=-5, hi=5) for e in range(dim)]
+        img2, _, _ = _image(darsia, shape, cfg["payload"], name="a", dims=dims, org=org)
+        ca = O.ORIENT[dim][m][0]
+        r_idx = darsia.reduce_axis(img2, m, mode=cfg["mode"])
+        r_nam = darsia.reduce_axis(img2, "xyz"[ca], mode=cfg["mode"])
+        # (where the lower-dimensional image puts its origin is a convention of its own; what must hold is that the
+        #  two ways of addressing the axis place the result identically and keep the retained extents)
+        S.claim("reduced_image_is_placed_identically_by_index_and_by_name", S.and_(S.eq(list(r_idx.origin), list(r_nam.origin)), S.eq(list(r_idx.dimensions), list(r_nam.dimensions)), S.eq(list(r_idx.dimensions), [dims[e] for e in range(dim) if e != m]), S.eq(r_idx.img, r_nam.img)))
         return
     if k == "extrude":
         shape = tuple(cfg["shape"])
